@@ -17,9 +17,12 @@ CONSTANTS
   ClaimLocal = FALSE
   SameAs = {}
   Reclaim = FALSE
+  ResetOnFail = FALSE
+  CanTick = FALSE
+  ShortClaim = FALSE
   Emit = FALSE
 INIT Init
 NEXT Next
 VIEW view
-INVARIANTS TypeOK AtMostOneSuccess AtMostOneMapping SuccessWasValid FailedLeavesNone FieldsOK
+INVARIANTS TypeOK NoActivationAfterDeath AtMostOneSuccess AtMostOneMapping SuccessWasValid FailedLeavesNone FieldsOK
 CHECK_DEADLOCK FALSE
